@@ -111,6 +111,8 @@ OTHER = {"C05split": ("SplitC05.lean", "LK.Proofs.SplitC05", py2lean_split.trans
 CASES += [
  ("C05split", "splitting/users.py", "    if test_only:\n        train_build.clear_relationships(iname)\n    else:", "    if not test_only:\n        train_build.clear_relationships(iname)\n    else:", "break"),
  ("C05split", "splitting/users.py", "        test_us = users[ts]\n", "        test_us = users[ts[:-1]]\n", "break"),
+ ("C05split", "splitting/temporal.py", "        mask = ts_col >= t\n", "        mask = ts_col > t\n", "break"),
+ ("C05split", "splitting/temporal.py", "        if i + 1 < len(times):\n            t2 = times[i + 1]", "        if i + 1 <= len(times):\n            t2 = times[i]", "break"),
  ("C05split", "splitting/records.py", "        train_build.add_interactions(iname, df[~mask])", "        train_build.add_interactions(iname, df[mask])", "break"),
  ("C05split", "splitting/records.py", "    train_build.clear_relationships(iname)\n", "", "break"),
  ("C05split", "splitting/records.py", "        end = start + size\n        yield xs[start:end]", "        end = start + size + 1\n        yield xs[start:end]", "break"),
